@@ -324,6 +324,10 @@ func (e *EdgeQuery) Distance(target distanceTarget) s1.ChordAngle {
 //	query.IsDistanceLess(target, limit.Successor())
 func (e *EdgeQuery) IsDistanceLess(target distanceTarget, limit s1.ChordAngle) bool {
 	opts := e.opts
+	// Work on a copy: the options configured by the caller must not be
+	// modified by a threshold test.
+	optsCopy := *opts
+	opts = &optsCopy
 	opts = opts.MaxResults(1).
 		DistanceLimit(limit).
 		MaxError(s1.StraightChordAngle)
@@ -369,6 +373,10 @@ func (e *EdgeQuery) IsConservativeDistanceGreaterOrEqual(target distanceTarget, 
 // entries with edgeID == -1. This indicates that the target intersects the
 // indexed polygon with the given shapeID.
 func (e *EdgeQuery) findEdges(target distanceTarget, opts *queryOptions) []EdgeQueryResult {
+	// findEdgesInternal installs the per-call options in e.opts; restore the
+	// options configured by the caller when the call is done.
+	userOpts := e.opts
+	defer func() { e.opts = userOpts }()
 	e.findEdgesInternal(target, opts)
 	// TODO(roberts): Revisit this if there is a heap or other sorted and
 	// uniquing datastructure we can use instead of just a slice.
@@ -401,6 +409,10 @@ func sortAndUniqueResults(results []EdgeQueryResult) []EdgeQueryResult {
 // This is primarily to ease the usage of a number of the methods in the DistanceTargets
 // and in EdgeQuery.
 func (e *EdgeQuery) findEdge(target distanceTarget, opts *queryOptions) EdgeQueryResult {
+	// Work on a copy so that limiting this call to one result does not change
+	// the options configured by the caller.
+	optsCopy := *opts
+	opts = &optsCopy
 	opts.MaxResults(1)
 	e.findEdges(target, opts)
 	if len(e.results) > 0 {
